@@ -21,7 +21,7 @@ PROP = {
 CLAIM = {
     "engine": "rapid-direct",
     "technique": "property-based testing (rapid): metamorphic pairs built from generated (field selector, new value) mutations of a plain-data header / sign-target model, with model equality as the oracle and a cross-case collision table",
-    "text": "Headers and sign targets are generated as data from near-miss value pools; the second element of each pair is produced by 1-3 generated field mutations (every scalar, validator hash, annotation state and every component of the previous-commit proof, plus byte shifts across adjacent fields and field swaps), so the oracle knows from the models alone whether the pair is equal or differs. Equal models (other map insertion order, other stored Hash) must hash equal over repeated calls; differing models must hash differently; distinct (kind, height, round, hash / signed proposal field) targets must have distinct sign bytes across and within kinds; all hashes and sign bytes of a run are additionally checked against a table of earlier cases. Exploration of a pure function: sampled pairs, no claim of absence of collisions.",
+    "text": "Headers and sign targets are generated as data from near-miss value pools; the second element of each pair is produced by 1-3 generated field mutations (every scalar, validator hash, annotation state and every component of the previous-commit proof, plus byte shifts across adjacent fields and field swaps), so the oracle knows from the models alone whether the pair is equal or differs. Equal models (other map insertion order, other stored Hash) must hash equal over repeated calls; differing models must hash differently; distinct (kind, height, round, hash / signed proposal field) targets must have distinct sign bytes across and within kinds; all hashes and sign bytes of a run are additionally checked against a table of earlier cases. For proposal sign bytes the harness also learns the format from the output: where the raw bytes of two signed byte fields occur in the sign bytes, the text between them is taken as the separator and the target \"first + separator + second, second absent\" must get different sign bytes (field injection). Exploration of a pure function: sampled pairs, no claim of absence of collisions.",
     "design_ref": "DESIGN.md section 4 C15",
     "note": "Relies on BLAKE2b collision resistance to read an equal hash as 'field not bound'. Proposal sign bytes do not cover the header Hash in SimpleSignatureScheme; measured, not failed (notes/C15.md).",
 }
